@@ -57,7 +57,7 @@ def describe(tier):
         "bound": ("graphs O(1..3)" if tier == "quick" else "graphs L(1..3) + O(4, <=3 edges)")
         + "; every counterfactual variable with every consistent subscript assignment (all sizes, incl. reflexive); events "
         "of one item (all subscript sizes) and of two items (up to 1 subscript each, repeated variables allowed); values - "
-        "and +; every base value assignment; every exogenous setting; definitional clauses (ancestors == Def. 2.1, minimisation "
+        "and +; three-node graphs: SIMPLIFY also on every pair of non-reflexive items with up to two subscripts each; every base value assignment; every exogenous setting; definitional clauses (ancestors == Def. 2.1, minimisation "
         "keeps every relevant subscript and adds none) for every variable and subscript assignment on "
         + ("O(4, <=4 edges)" if tier == "quick" else "O(4, <=5 edges)")
         + "; builder sequences: every sequence of 3 edge insertions over 3 names on one live graph object, the clauses without recorded findings "
@@ -206,7 +206,7 @@ def check_variable(res: Res, g: G, yg, m, v, subs, case):
     res.outcomes["minimize_ok"] += 1
 
 
-def check_event(res: Res, g: G, yg, m, items, case):
+def check_event(res: Res, g: G, yg, m, items, case, simplify_only=False):
     from y0.algorithm.counterfactual_transport.api import do_counterfactual_factor_factorization, simplify
     from y0.dsl import Intervention
 
@@ -252,6 +252,8 @@ def check_event(res: Res, g: G, yg, m, items, case):
                 res.outcomes["simplify_wrong"] += 1
             else:
                 res.outcomes["simplify_ok"] += 1
+    if simplify_only:
+        return
     # (fact): queries over distinct variables-in-worlds without reflexive subscripts (redundant subscripts are allowed:
     # the factorisation must recognise a query variable whatever irrelevant subscripts it carries)
     if len({(it[0], it[1]) for it in items}) != len(items):
@@ -361,6 +363,18 @@ def explore_graph(res: Res, g: G, tier, seed, only=None, yg=None, extra=None, pa
             if len(res.samples) < 3 and len(items) == 2 and items[0][1]:
                 res.sample(case)
             check_event(res, g, yg, m, items, case)
+        if only is None and n == 3 and extra is None:
+            # two-world pairs for SIMPLIFY: pairs of non-reflexive items with up to two subscripts each, at least one of them
+            # with two (one variable in two worlds over the same intervened names, a droppable subscript next to a relevant
+            # one; after seeded C19-g); judged on the simplify clause only
+            big = [it for it in event_items(g.nodes, 2, reflexive=False)]
+            for i, a in enumerate(big):
+                for b in big[i + 1 :]:
+                    if len(a[1]) < 2 and len(b[1]) < 2:
+                        continue  # covered above
+                    items = (a, b)
+                    case = {"graph": g.to_json(), "event": event_json(items), "simplify_only": True}
+                    check_event(res, g, yg, m, items, case, simplify_only=True)
     if (only is None or only[0] == "components") and "components" in parts:
         # (comp) roots: one or two counterfactual variables (up to 1 subscript, non-reflexive); conditioned: any subset
         cvars = [(v, subs) for v in g.nodes for subs in sub_assignments(g.nodes, 1) if v not in dict(subs)]
@@ -417,4 +431,6 @@ def replay(case, clause=None):
     else:
         only = ("event", event_from_json(case["event"]))
     explore_graph(res, g, "thorough", int(os.environ.get("VERIF_SEED", "0") or 0), only=only)
+    if case.get("simplify_only"):
+        return [v for v in res.violations if v["clause"] == "simplify"]
     return list(res.violations)
